@@ -16,6 +16,7 @@ type tmpl struct {
 	Key   string   // variable name (lower case)
 	Vals  []string // candidate values
 	Known string   // family of an already confirmed observation ("" = none)
+	Pref  string   // repository layout in which the key would matter most (used for 3 of 4 single-key cases)
 }
 
 const (
@@ -45,10 +46,10 @@ var unsafeTemplates = []tmpl{
 	{Name: "lfs.fetchrecentrefsdays", Sec: "lfs", Key: "fetchrecentrefsdays", Vals: ints},
 	{Name: "lfs.fetchrecentremoterefs", Sec: "lfs", Key: "fetchrecentremoterefs", Vals: []string{"false"}},
 	{Name: "lfs.pruneoffsetdays", Sec: "lfs", Key: "pruneoffsetdays", Vals: ints},
-	{Name: "lfs.pruneremotetocheck", Sec: "lfs", Key: "pruneremotetocheck", Vals: []string{"@R2@", "evil"}},
+	{Name: "lfs.pruneremotetocheck", Sec: "lfs", Key: "pruneremotetocheck", Vals: []string{"@R2@", "evil"}, Pref: "two"},
 	{Name: "lfs.pruneverifyremotealways", Sec: "lfs", Key: "pruneverifyremotealways", Vals: []string{"true"}},
 	{Name: "lfs.pruneverifyunreachablealways", Sec: "lfs", Key: "pruneverifyunreachablealways", Vals: []string{"true"}},
-	{Name: "lfs.cachecredentials", Sec: "lfs", Key: "cachecredentials", Vals: []string{"false"}},
+	{Name: "lfs.cachecredentials", Sec: "lfs", Key: "cachecredentials", Vals: []string{"false"}, Pref: "auth"},
 	{Name: "lfs.dialtimeout", Sec: "lfs", Key: "dialtimeout", Vals: ints},
 	{Name: "lfs.keepalive", Sec: "lfs", Key: "keepalive", Vals: ints},
 	{Name: "lfs.tlstimeout", Sec: "lfs", Key: "tlstimeout", Vals: ints},
@@ -57,11 +58,11 @@ var unsafeTemplates = []tmpl{
 	{Name: "lfs.setlockablereadonly", Sec: "lfs", Key: "setlockablereadonly", Vals: []string{"false"}},
 	{Name: "lfs.lockignoredfiles", Sec: "lfs", Key: "lockignoredfiles", Vals: []string{"true"}},
 	{Name: "lfs.largefilewarning", Sec: "lfs", Key: "largefilewarning", Vals: bools},
-	{Name: "lfs.defaulttokenttl", Sec: "lfs", Key: "defaulttokenttl", Vals: ints},
+	{Name: "lfs.defaulttokenttl", Sec: "lfs", Key: "defaulttokenttl", Vals: ints, Pref: "ssh"},
 	{Name: "lfs.repositoryformatversion", Sec: "lfs", Key: "repositoryformatversion", Vals: []string{"1", "7"}},
 	{Name: "lfs.batch", Sec: "lfs", Key: "batch", Vals: []string{"false"}},
 	{Name: "lfs.contenttype", Sec: "lfs", Key: "contenttype", Vals: []string{"false"}},
-	{Name: "lfs.sshtransfer", Sec: "lfs", Key: "sshtransfer", Vals: []string{"always", "never"}},
+	{Name: "lfs.sshtransfer", Sec: "lfs", Key: "sshtransfer", Vals: []string{"always", "never"}, Pref: "ssh"},
 	{Name: "lfs.access", Sec: "lfs", Key: "access", Vals: []string{"basic", "negotiate"}},
 	{Name: "lfs.<url>.locksverify", Sec: "lfs", Subs: urlSubs, Key: "locksverify", Vals: bools},
 	{Name: "lfs.lfspushurl", Sec: "lfs", Key: "lfspushurl", Vals: []string{vURL}},
@@ -73,12 +74,12 @@ var unsafeTemplates = []tmpl{
 	{Name: "lfs.transfer.maxverifies", Sec: "lfs", Subs: []string{"transfer"}, Key: "maxverifies", Vals: ints},
 	{Name: "lfs.transfer.batchsize", Sec: "lfs", Subs: []string{"transfer"}, Key: "batchsize", Vals: ints},
 	{Name: "lfs.transfer.enablehrefrewrite", Sec: "lfs", Subs: []string{"transfer"}, Key: "enablehrefrewrite", Vals: []string{"true"}},
-	{Name: "lfs.remote.autodetect", Sec: "lfs", Subs: []string{"remote"}, Key: "autodetect", Vals: []string{"true"}},
-	{Name: "lfs.remote.searchall", Sec: "lfs", Subs: []string{"remote"}, Key: "searchall", Vals: []string{"true"}},
-	{Name: "lfs.ssh.retries", Sec: "lfs", Subs: []string{"ssh"}, Key: "retries", Vals: ints},
-	{Name: "lfs.ssh.automultiplex", Sec: "lfs", Subs: []string{"ssh"}, Key: "automultiplex", Vals: []string{"false"}},
+	{Name: "lfs.remote.autodetect", Sec: "lfs", Subs: []string{"remote"}, Key: "autodetect", Vals: []string{"true"}, Pref: "two"},
+	{Name: "lfs.remote.searchall", Sec: "lfs", Subs: []string{"remote"}, Key: "searchall", Vals: []string{"true"}, Pref: "two"},
+	{Name: "lfs.ssh.retries", Sec: "lfs", Subs: []string{"ssh"}, Key: "retries", Vals: ints, Pref: "ssh"},
+	{Name: "lfs.ssh.automultiplex", Sec: "lfs", Subs: []string{"ssh"}, Key: "automultiplex", Vals: []string{"false"}, Pref: "ssh"},
 	{Name: "lfs.<url>.standalonetransferagent", Sec: "lfs", Subs: urlSubs, Key: "standalonetransferagent", Vals: []string{"lfs-standalone-file", "sent"}},
-	{Name: "lfs.<url>.sshtransfer", Sec: "lfs", Subs: []string{"ssh://git@sshhost/@TAG@/sshorigin/repo.git", "http://@HOST@/"}, Key: "sshtransfer", Vals: []string{"always", "never"}},
+	{Name: "lfs.<url>.sshtransfer", Sec: "lfs", Subs: []string{"ssh://git@sshhost/@TAG@/sshorigin/repo.git", "http://@HOST@/"}, Key: "sshtransfer", Vals: []string{"always", "never"}, Pref: "ssh"},
 	{Name: "lfs.<url>.contenttype", Sec: "lfs", Subs: urlSubs, Key: "contenttype", Vals: []string{"false"}},
 	{Name: "lfs.<url>.activitytimeout", Sec: "lfs", Subs: urlSubs, Key: "activitytimeout", Vals: ints},
 	{Name: "lfs.<url>.url", Sec: "lfs", Subs: urlSubs, Key: "url", Vals: []string{vURL}},
@@ -92,10 +93,10 @@ var unsafeTemplates = []tmpl{
 	{Name: "lfs.extension.<n>.<other>", Sec: "lfs", Subs: []string{"extension.sent", "extension.x3"}, Key: "bogus", Vals: []string{"1"}, Known: "ext-other"},
 	{Name: "lfs.extension.<n.m>.clean", Sec: "lfs", Subs: []string{"extension.a.b"}, Key: "clean", Vals: []string{vProgA}},
 	// ---- remote.*
-	{Name: "remote.<2-part>", Sec: "remote", Key: "lfsdefault", Vals: []string{"@R2@", "evil"}, Known: "remote2"},
-	{Name: "remote.<2-part>", Sec: "remote", Key: "lfspushdefault", Vals: []string{"@R2@", "evil"}, Known: "remote2"},
-	{Name: "remote.<2-part>", Sec: "remote", Key: "pushdefault", Vals: []string{"@R2@", "evil"}, Known: "remote2"},
-	{Name: "remote.<2-part>", Sec: "remote", Key: "whatever", Vals: []string{"1"}, Known: "remote2"},
+	{Name: "remote.<2-part>", Sec: "remote", Key: "lfsdefault", Vals: []string{"@R2@", "evil"}, Known: "remote2", Pref: "two"},
+	{Name: "remote.<2-part>", Sec: "remote", Key: "lfspushdefault", Vals: []string{"@R2@", "evil"}, Known: "remote2", Pref: "two"},
+	{Name: "remote.<2-part>", Sec: "remote", Key: "pushdefault", Vals: []string{"@R2@", "evil"}, Known: "remote2", Pref: "two"},
+	{Name: "remote.<2-part>", Sec: "remote", Key: "whatever", Vals: []string{"1"}, Known: "remote2", Pref: "two"},
 	{Name: "remote.<name>.url", Sec: "remote", Subs: remoteSubs, Key: "url", Vals: []string{vURLg}},
 	{Name: "remote.<name>.pushurl", Sec: "remote", Subs: remoteSubs, Key: "pushurl", Vals: []string{vURLg}},
 	{Name: "remote.<name>.lfspushurl", Sec: "remote", Subs: remoteSubs, Key: "lfspushurl", Vals: []string{vURL}},
@@ -103,24 +104,24 @@ var unsafeTemplates = []tmpl{
 	{Name: "remote.<name>.proxy", Sec: "remote", Subs: remoteSubs, Key: "proxy", Vals: []string{vProxy}},
 	{Name: "remote.<name>.lfsurlx", Sec: "remote", Subs: remoteSubs, Key: "lfsurlx", Vals: []string{vURL}},
 	{Name: "remote.<name>.uploadpack", Sec: "remote", Subs: remoteSubs, Key: "uploadpack", Vals: []string{vProg}},
-	{Name: "remote.<dotted-name>.<non-lfsurl>", Sec: "remote", Subs: dottedSubs, Key: "url", Vals: []string{vURLg}, Known: "remote-dotted"},
-	{Name: "remote.<dotted-name>.<non-lfsurl>", Sec: "remote", Subs: dottedSubs, Key: "pushurl", Vals: []string{vURLg}, Known: "remote-dotted"},
-	{Name: "remote.<dotted-name>.<non-lfsurl>", Sec: "remote", Subs: dottedSubs, Key: "lfspushurl", Vals: []string{vURL}, Known: "remote-dotted"},
-	{Name: "remote.<dotted-name>.<non-lfsurl>", Sec: "remote", Subs: dottedSubs, Key: "whatever", Vals: []string{"1"}, Known: "remote-dotted"},
-	{Name: "branch.<b>.remote", Sec: "branch", Subs: []string{"main"}, Key: "remote", Vals: []string{"@R2@", "evil"}},
-	{Name: "branch.<b>.pushremote", Sec: "branch", Subs: []string{"main"}, Key: "pushremote", Vals: []string{"@R2@", "evil"}},
-	{Name: "branch.<b>.merge", Sec: "branch", Subs: []string{"main"}, Key: "merge", Vals: []string{"refs/heads/evil"}},
+	{Name: "remote.<dotted-name>.<non-lfsurl>", Sec: "remote", Subs: dottedSubs, Key: "url", Vals: []string{vURLg}, Known: "remote-dotted", Pref: "dotted"},
+	{Name: "remote.<dotted-name>.<non-lfsurl>", Sec: "remote", Subs: dottedSubs, Key: "pushurl", Vals: []string{vURLg}, Known: "remote-dotted", Pref: "dotted"},
+	{Name: "remote.<dotted-name>.<non-lfsurl>", Sec: "remote", Subs: dottedSubs, Key: "lfspushurl", Vals: []string{vURL}, Known: "remote-dotted", Pref: "dotted"},
+	{Name: "remote.<dotted-name>.<non-lfsurl>", Sec: "remote", Subs: dottedSubs, Key: "whatever", Vals: []string{"1"}, Known: "remote-dotted", Pref: "dotted"},
+	{Name: "branch.<b>.remote", Sec: "branch", Subs: []string{"main"}, Key: "remote", Vals: []string{"@R2@", "evil"}, Pref: "two"},
+	{Name: "branch.<b>.pushremote", Sec: "branch", Subs: []string{"main"}, Key: "pushremote", Vals: []string{"@R2@", "evil"}, Pref: "two"},
+	{Name: "branch.<b>.merge", Sec: "branch", Subs: []string{"main"}, Key: "merge", Vals: []string{"refs/heads/evil"}, Pref: "two"},
 	// ---- credential.*
-	{Name: "credential.helper", Sec: "credential", Key: "helper", Vals: []string{vProg, "!" + vProg}},
-	{Name: "credential.<url>.helper", Sec: "credential", Subs: urlSubs, Key: "helper", Vals: []string{vProg}},
-	{Name: "credential.usehttppath", Sec: "credential", Key: "usehttppath", Vals: []string{"true"}},
-	{Name: "credential.<url>.usehttppath", Sec: "credential", Subs: urlSubs, Key: "usehttppath", Vals: []string{"true"}},
-	{Name: "credential.protectprotocol", Sec: "credential", Key: "protectprotocol", Vals: []string{"false"}},
-	{Name: "credential.skipwwwauth", Sec: "credential", Key: "skipwwwauth", Vals: []string{"true"}},
-	{Name: "credential.username", Sec: "credential", Key: "username", Vals: []string{"evil"}},
+	{Name: "credential.helper", Sec: "credential", Key: "helper", Vals: []string{vProg, "!" + vProg}, Pref: "auth"},
+	{Name: "credential.<url>.helper", Sec: "credential", Subs: urlSubs, Key: "helper", Vals: []string{vProg}, Pref: "auth"},
+	{Name: "credential.usehttppath", Sec: "credential", Key: "usehttppath", Vals: []string{"true"}, Pref: "auth"},
+	{Name: "credential.<url>.usehttppath", Sec: "credential", Subs: urlSubs, Key: "usehttppath", Vals: []string{"true"}, Pref: "auth"},
+	{Name: "credential.protectprotocol", Sec: "credential", Key: "protectprotocol", Vals: []string{"false"}, Pref: "auth"},
+	{Name: "credential.skipwwwauth", Sec: "credential", Key: "skipwwwauth", Vals: []string{"true"}, Pref: "auth"},
+	{Name: "credential.username", Sec: "credential", Key: "username", Vals: []string{"evil"}, Pref: "auth"},
 	// ---- core.*
-	{Name: "core.askpass", Sec: "core", Key: "askpass", Vals: []string{vProg}},
-	{Name: "core.sshcommand", Sec: "core", Key: "sshcommand", Vals: []string{vProg, vProg + " -x"}},
+	{Name: "core.askpass", Sec: "core", Key: "askpass", Vals: []string{vProg}, Pref: "auth-nocreds"},
+	{Name: "core.sshcommand", Sec: "core", Key: "sshcommand", Vals: []string{vProg, vProg + " -x"}, Pref: "ssh"},
 	{Name: "core.hookspath", Sec: "core", Key: "hookspath", Vals: []string{vPath}},
 	{Name: "core.sharedrepository", Sec: "core", Key: "sharedrepository", Vals: []string{"0666", "all", "group"}},
 	{Name: "core.attributesfile", Sec: "core", Key: "attributesfile", Vals: []string{vPath}},
@@ -156,7 +157,7 @@ var unsafeTemplates = []tmpl{
 	{Name: "filter.lfs.process", Sec: "filter", Subs: []string{"lfs"}, Key: "process", Vals: []string{vProg}},
 	{Name: "filter.lfs.required", Sec: "filter", Subs: []string{"lfs"}, Key: "required", Vals: []string{"false"}},
 	{Name: "filter.<other>.clean", Sec: "filter", Subs: []string{"evil"}, Key: "clean", Vals: []string{vProgA}},
-	{Name: "ssh.variant", Sec: "ssh", Key: "variant", Vals: []string{"simple", "putty", "tortoiseplink"}},
+	{Name: "ssh.variant", Sec: "ssh", Key: "variant", Vals: []string{"simple", "putty", "tortoiseplink"}, Pref: "ssh"},
 	{Name: "user.name", Sec: "user", Key: "name", Vals: []string{"Evil Name"}},
 	{Name: "user.email", Sec: "user", Key: "email", Vals: []string{"evil@example.com"}},
 	{Name: "extensions.objectformat", Sec: "extensions", Key: "objectformat", Vals: []string{"sha256"}},
@@ -170,8 +171,8 @@ var unsafeTemplates = []tmpl{
 	{Name: "include.path", Sec: "include", Key: "path", Vals: []string{"inc.cfg", "@ROOT@/inc-abs.cfg"}, Known: "include"},
 	{Name: "includeif.<cond>.path", Sec: "includeif", Subs: []string{"gitdir:/", "gitdir:**"}, Key: "path", Vals: []string{"inc.cfg", "@ROOT@/inc-abs.cfg"}, Known: "includeif"},
 	// ---- `git config -l` is line based: spellings that produce extra / truncated lines
-	{Name: "<section>.<subsection-with-equals>.<key>", Sec: "lfs", Subs: []string{"url=http://@HOST@/@TAG@/sentinel-@K@/"}, Key: "zzz", Vals: []string{"1"}, Known: "sub-equals"},
-	{Name: "<unsafe-key>=<value-with-newline>", Sec: "lfs", Key: "zzz", Vals: []string{"x\nlfs.url=http://@HOST@/@TAG@/sentinel-@K@", "x\nlfs.pushurl=http://@HOST@/@TAG@/sentinel-@K@"}, Known: "value-newline"},
+	{Name: "<section>.<subsection-with-equals>.<key>", Sec: "lfs", Subs: []string{"url=http://@HOST@/@TAG@/injected-@K@/"}, Key: "zzz", Vals: []string{"1"}, Known: "sub-equals"},
+	{Name: "<unsafe-key>=<value-with-newline>", Sec: "lfs", Key: "zzz", Vals: []string{"x\nlfs.url=http://@HOST@/@TAG@/injected-@K@", "x\nlfs.pushurl=http://@HOST@/@TAG@/injected-@K@"}, Known: "value-newline"},
 }
 
 // Allowed by the documented list (verified against the parsed list at start-up).
